@@ -18,14 +18,17 @@
                           -> [parse] / [parse_items] / [parse_fields]   (float(int) is the section
                              variable [foi]; [None] = the integer is too large for a float)
      config_struct_to_dict (and the _dictify helpers) -> [to_data]
-   The model states the behaviour C16 demands at the two places where the current code lets another
-   exception escape (both are listed in known_findings.d/C16.json and flagged by the harness oracle):
-     - a fixed-length Tuple field given a value without a length: [Err Mismatch path]
-       (code: TypeError from len());
-     - a float field given an integer beyond the float range: [Err Mismatch path]
-       (code: OverflowError from float()).
-   Outside the model: bare List/Dict/Tuple/list/dict field types, field types rejected by
-   _check_config_struct_type, data that is not JSON data (tuples, dataclass instances, non-string keys).
+   Part C (end of file) transcribes _check_config_struct_type over ARBITRARY annotations ([ann], [check])
+   and _parse_config_value over arbitrary annotations ([parse_ann]); [denote] maps an annotation to the
+   accepted grammar [cty] when it belongs to it.  ProofsD.v: check = Ok iff the annotation denotes, and
+   then parse_ann = parse.
+   Bare List / list / Dict / dict / Tuple field types are part of [cty] (TRawList, TRawDict, TRawTuple).
+   At two places the model states what C16 demands and the code used to let another exception escape
+   (found by this check, since repaired in /repo by two fix: commits):
+     - a fixed-length Tuple field given a value without a length: [Err Mismatch path] (was TypeError);
+     - a float field given an integer beyond the float range: [Err Mismatch path] (was OverflowError).
+   Outside the model: data that is not JSON data (tuples, dataclass instances, non-string keys);
+   the annotation None / NoneType; f.init = False fields.
    Text is a list of code points (N).  A float is an opaque atom: the text of its repr. *)
 From Coq Require Export List Arith ZArith NArith Bool Lia.
 Export ListNotations.
@@ -745,6 +748,16 @@ with subann_fields : ann -> afields -> Prop :=
 | saf_here b n a d r : subann b a -> subann_fields b (AFCons n a d r)
 | saf_later b n a d r : subann_fields b r -> subann_fields b (AFCons n a d r).
 
+Fixpoint anth (ms : anns) (i : nat) : option ann :=
+  match ms, i with
+  | ANil, _ => None
+  | ACons a _, O => Some a
+  | ACons _ r, S j => anth r j
+  end.
+Inductive afield_in : afields -> str -> ann -> option cval -> Prop :=
+| afi_here n a d r : afield_in (AFCons n a d r) n a d
+| afi_later n a d n' a' d' r : afield_in r n a d -> afield_in (AFCons n' a' d' r) n a d.
+
 (* the annotation at definition path q is refused, with this message kind *)
 Inductive unsup_at : ann -> list cpelem -> ckind -> Prop :=
 | un_union ms hn : unsup_at (AUnion ms hn) [] CUnion
@@ -756,5 +769,4 @@ Inductive unsup_at : ann -> list cpelem -> ckind -> Prop :=
 | un_dict a q k : unsup_at a q k -> unsup_at (ADict true a) (CAny :: q) k
 | un_vartuple a q k : unsup_at a q k -> unsup_at (AVarTuple a) (CAny :: q) k
 | un_tuple ms i a q k : anth ms i = Some a -> unsup_at a q k -> unsup_at (ATuple ms) (CIdx i :: q) k
-| un_struct fs n a d q k : afield_in fs n a d -> unsup_at a q k -> unsup_at (AStruct fs) (CField n :: q) k
-with anth_dummy : Prop := .
+| un_struct fs n a d q k : afield_in fs n a d -> unsup_at a q k -> unsup_at (AStruct fs) (CField n :: q) k.
